@@ -16,20 +16,28 @@ CRATES = ["alpha", "beta-x", "gamma_y", "delta", "eps-i-lon", "time-series", "ht
           "coreTypes", "apiV2"]
 
 
+def ascii_upper(s):
+    return "".join(chr(ord(ch) - 32) if "a" <= ch <= "z" else ch for ch in s)
+
+
+def ascii_lower(s):
+    return "".join(chr(ord(ch) + 32) if "A" <= ch <= "Z" else ch for ch in s)
+
+
 def file_name(lang, crate):
     c = crate.replace("-", "_")
     if lang == "swift":
-        # RenameExt::to_pascal_case on the crate name
-        allcaps = c.upper() == c
+        # RenameExt::to_pascal_case on the crate name: its case operations are the ASCII ones (`ärger_core` -> `ärgerCore`)
+        allcaps = ascii_upper(c) == c
         out, cap = "", True
         for ch in c:
             if ch == "_":
                 cap = True
             elif cap:
-                out += ch.upper()
+                out += ascii_upper(ch)
                 cap = False
             else:
-                out += ch.lower() if allcaps else ch
+                out += ascii_lower(ch) if allcaps else ch
         return out + ".swift"
     return c + "." + EXT[lang]
 
@@ -42,10 +50,15 @@ PARAM_TICK = [0]
 FORCED = {"use": 0.2, "use-group": 0.5, "glob": 0.6, "as": 0.7, "use-reexport": 0.8, "qualified-in-generic": 0.9}
 
 
-def make_workspace(rng, ncrates, force=None):
-    crates = rng.sample(CRATES, ncrates)
-    pool = TYPE_WORDS + [w + "Two" for w in TYPE_WORDS]
-    words = rng.sample(pool, 3 * ncrates)
+def make_workspace(rng, ncrates, force=None, names=None):
+    """`names`: None (ASCII crate names from CRATES, ASCII type words) or a function ncrates -> (crate names, 3 * ncrates type names)
+    (the Unicode part draws both from alphabets with non-ASCII first and inner letters)"""
+    if names:
+        crates, words = names(ncrates)
+    else:
+        crates = rng.sample(CRATES, ncrates)
+        pool = TYPE_WORDS + [w + "Two" for w in TYPE_WORDS]
+        words = rng.sample(pool, 3 * ncrates)
     owned = {c: rng.sample(words[3 * i:3 * i + 3], rng.randint(1, 3)) for i, c in enumerate(crates)}   # the types each crate generates
     files, g = [], Gen(rng, p_serialized_as=0.0, p_decorators=0.0, p_cfg=0.0, p_const=0.0, p_mod=0.1, p_noise=0.1,
                        p_rename=0.15, p_generic=0.1)
@@ -56,7 +69,7 @@ def make_workspace(rng, ncrates, force=None):
         ext = rng.sample(others, min(len(others), rng.randint(1 if force else 0, 2)))
         mine = owned[c]
         f = g.file(names=mine, extern_types=[w for _, w in ext])
-        style = {}
+        style, written = {}, {}          # written: the crate name the source names the type's crate by (a re-export: a third crate)
         for oc, w in ext:
             # every reference style comes round regularly (a rotating counter, jittered), whatever the other random choices were
             STYLE_TICK[0] += 1
@@ -64,6 +77,7 @@ def make_workspace(rng, ncrates, force=None):
             if force:
                 r = FORCED[force]
             ocn = oc.replace("-", "_")
+            written[w] = ocn
             if r < 0.4:
                 f["items"].insert(0, {"kind": "use", "tree": ("upath", ocn, ("uname", w))})
                 style[w] = "use"
@@ -90,6 +104,7 @@ def make_workspace(rng, ncrates, force=None):
                     style[w] = "none"
                     continue
                 via = rng.choice(vias).replace("-", "_")
+                written[w] = via
                 f["items"].insert(0, {"kind": "use", "tree": ("upath", via, ("uname", w))})
                 style[w] = "use-reexport"
             elif r < 0.92:
@@ -131,13 +146,13 @@ def make_workspace(rng, ncrates, force=None):
         sub = rng.choice(["", "models/", "a/b/"])
         # the crate is the directory above the *last* `src` component: some crates live under another crate's `src`
         top = c if rng.random() < 0.75 else "outer%d/src/%s" % (len(files), c)
-        files.append(dict(crate=c, rel="%s/src/%slib.rs" % (top, sub), file=f, owned=mine, ext=ext, style=style))
+        files.append(dict(crate=c, rel="%s/src/%slib.rs" % (top, sub), file=f, owned=mine, ext=ext, style=style, written=written))
         imports_truth[c] = ext
     if CONST_CRATE[0]:
         # a crate whose only shared items are constants (the back ends that write constants give it a module of its own)
         cf = {"attrs": [], "items": [{"kind": "const", "attrs": [m_path("typeshare")], "ident": nm, "ty": t_path(ty), "expr_text": ex, "init": init}
                                      for nm, ty, ex, init in (("MAX_FRAME_BYTES", "u32", "65536", ("i", 65536, "")), ("MAX_NAME_LEN", "u8", "64", ("i", 64, "")))]}
-        files.append(dict(crate="wire-limits", rel="wire-limits/src/lib.rs", file=cf, owned=[], ext=[], style={}))
+        files.append(dict(crate="wire-limits", rel="wire-limits/src/lib.rs", file=cf, owned=[], ext=[], style={}, written={}))
         crates = crates + ["wire-limits"]
     return crates, files, g
 
@@ -189,6 +204,272 @@ def replay_file_collision(check):
                         case={"crates": ["SharedModels", "shared_models"]}, impl={"files": files}, failing_input=True)
 
 
+# ----------------------------------------------------------------------------- names beyond ASCII
+# Rust identifiers are Unicode (XID_Start XID_Continue*), and a crate is whatever directory lies above `src`.  The first letters
+# below are grouped by what char::is_uppercase / char::is_lowercase say about them; the check does not trust the grouping: the
+# facts are asked from Rust std through the runner (`unicode_table`) and every oracle decision goes through `initial_is`.
+UPPER, LOWER = 1, 2                      # columns of a unicode_table row
+U_UPPER = "ÄÉØŽÇΩΣГДŁİǄⅧ𝐀"            # Latin-1, Latin Extended, Greek, Cyrillic, dotted İ, the digraph Ǆ, Other_Uppercase (Ⅷ), 4 bytes (𝐀)
+U_LOWER = "äéøžçωσгдłßıŉªǆ"              # … sharp s, dotless ı, ŉ, Other_Lowercase (ª), the digraph ǆ
+U_CASELESS = "型名한कאǅ"                  # CJK, Hangul, Devanagari, Hebrew: letters without case; ǅ is title case (neither upper nor lower)
+# what follows the first letter: ASCII, non-ASCII lower and upper case, caseless letters, ß / ı, digits
+TYPE_TAILS = ["rger", "tage", "mega", "ород", "ße", "ıld", "名前", "Ünit", "çÇ", "x2", "llé", "ωΩ", "한글", "Ǆǆ", "ºª", "dÄ"]
+CRATE_TAILS = ["rger", "tage-x", "mega_y", "ород", "ßen", "ıldız", "名", "-ünit", "Core", "_Étage", "x2-ω", "-型-z", "é", "한_a"]
+UFACTS = {}
+
+
+def learn_chars(text):
+    new = {ch for ch in text if ord(ch) > 127 and ch not in UFACTS}
+    for row in unicode_table(new):
+        UFACTS[row[0]] = row
+
+
+def initial_is(name, what):
+    """char::is_uppercase (what=UPPER) / is_lowercase (LOWER) of the first character of `name`, as Rust std answers"""
+    ch = name[0]
+    if ord(ch) < 128:
+        return "A" <= ch <= "Z" if what == UPPER else "a" <= ch <= "z"
+    if ch not in UFACTS:
+        learn_chars(ch)
+    return bool(UFACTS[ch][what])
+
+
+def initial_class(name):
+    a = "ASCII " if ord(name[0]) < 128 else "non-ASCII "
+    return a + ("upper-case" if initial_is(name, UPPER) else "lower-case" if initial_is(name, LOWER) else "without case")
+
+
+def unicode_names(rng, in_scope_only):
+    """a drawer of crate (directory) names and type names: first letter from one of the classes, then a tail with non-ASCII inner
+    letters.  in_scope_only: only crates with a lower-case and types with an upper-case first letter (every reference then is one
+    the completeness clause speaks about); otherwise all classes are mixed."""
+    def draw(ncr):
+        crates, words = [], []
+        while len(crates) < ncr:
+            r = rng.random()
+            if r < 0.55 or (in_scope_only and r < 0.75):
+                c = rng.choice(U_LOWER) + rng.choice(CRATE_TAILS)
+            elif r < 0.75 or in_scope_only:
+                c = rng.choice([x for x in CRATES if "." not in x])
+                if rng.random() < 0.5:
+                    c += rng.choice(CRATE_TAILS)
+            elif r < 0.88:
+                c = rng.choice(U_CASELESS) + rng.choice(CRATE_TAILS)
+            else:
+                c = rng.choice(U_UPPER + "SM") + rng.choice(CRATE_TAILS)
+            # one module file per crate: no two names with the same snake / Pascal form (the open finding swift-module-file-collision)
+            if all(file_name("swift", c).lower() != file_name("swift", x).lower() for x in crates):
+                crates.append(c)
+        while len(words) < 3 * ncr:
+            r = rng.random()
+            if r < 0.5 or (in_scope_only and r < 0.7):
+                t = rng.choice(U_UPPER) + rng.choice(TYPE_TAILS)
+            elif r < 0.7 or in_scope_only:
+                t = rng.choice("ABDEGKMQRWXZ") + rng.choice(TYPE_TAILS)
+            elif r < 0.88:
+                t = rng.choice(U_CASELESS) + rng.choice(TYPE_TAILS)
+            else:
+                t = rng.choice(U_LOWER + "qz") + rng.choice(TYPE_TAILS)
+            if t not in words and t not in crates:
+                words.append(t)
+        learn_chars("".join(crates + words))
+        return crates, words
+    return draw
+
+
+def unicode_names_part(check):
+    """Dimension: the *alphabet of names*.  Workspaces as in the main loop (2-5 crates, every reference style of the generator:
+    `use`, grouped `use`, glob, `use … as`, re-export through a third crate, qualified path inside generic arguments; holders,
+    generic parameters named like an import, nested crates, roots below `src`), but crate directories and type names are drawn
+    from alphabets with non-ASCII first and inner letters: upper-case initials from Latin-1 to 4-byte code points, lower-case
+    crate initials (ß, dotless ı, ª), letters without case (CJK, Hangul, Hebrew, the title-case digraph ǅ), mixed with ASCII names.
+    Demands, on the files the binary wrote: one file per crate, named after the directory (dashes as underscores, Swift: the
+    ASCII-only PascalCase of to_pascal_case); definitions in the owner's file and equal to single-file mode; every import sound;
+    and every type used in a file but defined in another generated file is imported from that file whenever the reference is one
+    in the sense of the statement - the crate name written in the source starts with a lower-case letter and the type name with an
+    upper-case letter *by Unicode* (char::is_lowercase / is_uppercase, facts taken from Rust std), or a glob names the crate.
+    References outside that (a type or crate whose first letter has no case, a lower-case type, an upper-case crate) are counted
+    with what the tool did.  The first workspaces are one per (TypeScript / Kotlin, reference style) with in-scope names only.
+    Then the model on the same workspace, byte for byte (it takes the Unicode facts of exactly these characters)."""
+    rng = check.rng
+    rounds, nws = (6, 240) if check.thorough else (2, 40)      # the styles twice at least: a workspace may fail to generate (unsupported types)
+    forced = [(L, st) for st in FORCED for L in ("typescript", "kotlin")] * rounds
+    learn_chars(U_UPPER + U_LOWER + U_CASELESS + "".join(TYPE_TAILS + CRATE_TAILS))
+    for ch in U_UPPER + U_LOWER + U_CASELESS:
+        check.count("unicode names: first letters in the alphabet, %s by Rust std" % initial_class(ch))
+    for w in range(-len(forced), nws):
+        if w < 0:
+            lang, force = forced[w]
+            ncr = rng.randint(3, 4)
+        else:
+            # the languages that write imports twice as often as the others (partition and file names are checked for all six)
+            lang, force = (LANGS + ["typescript", "kotlin"])[w % 8], None
+            ncr = rng.randint(2, 5)
+        # w * 3 + 1: no constants-only crate here (the main loop has it)
+        if workspace_case(check, w * 3 + 1, lang, force, ncr, draw_names=unicode_names(rng, in_scope_only=w < 0), label="unicode names: "):
+            return True
+    return False
+
+
+def workspace_case(check, w, lang, force, ncr, draw_names=None, label=""):
+    """one generated workspace through the real binary (-d and -o) and the model; all of C14's oracles.  Returns True when a
+    violation was reported (the caller stops)."""
+    rng = check.rng
+    CONST_CRATE[0] = lang in ("typescript", "go", "python") and w % 3 == 0
+    crates, files, g = make_workspace(rng, ncr, force, draw_names)
+    if CONST_CRATE[0]:
+        check.count("workspace-with-const-only-crate")
+    # the workspace itself may be checked out below a directory called `src` (~/src/project/…)
+    root = rng.choice(["ws", "ws", "src/ws", "code/src/proj"])
+    with Scratch() as sc:
+        for f in files:
+            sc.write(root + "/" + f["rel"], render_file(f["file"]))
+        if "src" not in root.split("/"):
+            sc.write(root + "/not_a_crate/readme.rs", "#[typeshare]\npub struct Orphan { pub a: u8 }\n")   # no `src` above: belongs to no crate
+        r = run_cli(["--lang", lang, "-d", sc.path("out")] + lang_args(lang) + [sc.path(root)], cwd=sc.dir)
+        r1 = run_cli(["--lang", lang, "-o", sc.path("single." + EXT[lang])] + lang_args(lang) + [sc.path(root)], cwd=sc.dir)
+        outs = {}
+        if os.path.isdir(sc.path("out")):
+            for fn in sorted(os.listdir(sc.path("out"))):
+                outs[fn] = open(os.path.join(sc.path("out"), fn), encoding="utf-8").read()
+        single = open(sc.path("single." + EXT[lang]), encoding="utf-8").read() if os.path.exists(sc.path("single." + EXT[lang])) else None
+    cross = sum(len(f["ext"]) for f in files)
+    check.saw((lang, json.dumps([f["rel"] for f in files]), label, w), nontrivial=ncr >= 2 and cross > 0)
+    check.count("%s%s crates=%d" % (label, lang, ncr))
+    check.count("%slayout root=%s nested=%d" % (label, root, sum(1 for f in files if f["rel"].startswith("outer"))))
+    if r["rc"] != 0:
+        # generation-time errors (e.g. OffsetDateTime in Kotlin/Swift/Scala, generics in Go) are not C14's business
+        check.count("generation-error")
+        return False
+    problem = None
+    expected_files = {file_name(lang, f["crate"]) for f in files}
+    got_files = {fn for fn in outs if fn != "Codable.swift"}
+    if got_files != expected_files:
+        problem = "files written %s, expected one per crate: %s" % (sorted(got_files), sorted(expected_files))
+    defs_multi = []
+    if not problem:
+        for f in files:
+            text = outs[file_name(lang, f["crate"])]
+            defs = [m for m in re.findall(DEF_RX[lang], text, re.M)]
+            defs = [next(x for x in (d if isinstance(d, tuple) else (d,)) if x) for d in defs]
+            defs_multi += defs
+            # every definition of this file belongs to an item of this crate (original or renamed name, helper `…Inner`)
+            own = set(f["owned"])
+            foreign = [oc for oc in files if oc is not f]
+            for d in defs:
+                if any(d == o for of in foreign for o in of["owned"]) and d not in own:
+                    problem = "%s defines %s, which belongs to another crate" % (file_name(lang, f["crate"]), d)
+            # imports (TS / Kotlin): sound, and complete outside the known classes
+            if lang in ("typescript", "kotlin") and not problem:
+                if lang == "typescript":
+                    imps = [(m.group(2), [x.strip() for x in m.group(1).split(",")]) for m in re.finditer(r'^import \{ (.*) \} from "\./(\w+)";', text, re.M)]
+                else:
+                    imps = {}
+                    for m in re.finditer(r"^import com\.example\.(\w+)\.(\w+)", text, re.M):
+                        imps.setdefault(m.group(1), []).append(m.group(2))
+                    imps = list(imps.items())
+                for mod, names in imps:
+                    src = [of for of in files if of["crate"].replace("-", "_") == mod]
+                    if not src or mod == f["crate"].replace("-", "_"):
+                        problem = "import from %r, which is not another generated module" % mod
+                        continue
+                    other_text = outs[file_name(lang, src[0]["crate"])]
+                    if lang == "kotlin":
+                        pk = re.search(r"^package (\S+)$", other_text, re.M)
+                        if pk and pk.group(1) != "com.example." + mod:
+                            problem = "import from package com.example.%s, but the module of that crate declares `package %s`" % (mod, pk.group(1))
+                    for n in names:
+                        if not re.search(r"\b%s\b" % re.escape(n), other_text):
+                            problem = "import of %s from %s, which does not define it" % (n, mod)
+                imported = {n for _, names in imps for n in names}
+                for oc, wname in f["ext"]:
+                    used = re.search(r"[:<\[( |]%s\b" % re.escape(wname), text) is not None
+                    if draw_names and used and f["style"][wname] != "none":
+                        check.count("%sreference: type initial %s, crate initial %s: %s" % (
+                            label, initial_class(wname), initial_class(f["written"][wname]), "imported" if wname in imported else "not imported"))
+                    if used and wname not in imported:
+                        st = f["style"][wname]
+                        if st == "none":
+                            continue      # a reference without any `use` or qualification names no crate: out of scope
+                        # what a reference is (Lean: `all_references` / `acceptType`, `CrateInScope` / `acceptCrate`): the crate name written
+                        # in the source starts with a lower-case letter and - unless a glob brings the whole crate in - the type name
+                        # with an upper-case letter, by char::is_lowercase / is_uppercase (Unicode, not ASCII: `Ärger`, `Ωmega` are type
+                        # names and `ärger_core` a crate name; `型録`, `ǅem` (title case), `ärger` are not type names)
+                        if not initial_is(f["written"][wname], LOWER):
+                            check.count("out of scope: the crate name written in the source does not start with a lower-case letter")
+                            continue
+                        if st != "glob" and not initial_is(wname, UPPER):
+                            check.count("out of scope: the type name does not start with an upper-case letter (%s)" % initial_class(wname))
+                            continue
+                        src_text = render_file(f["file"])
+                        use_crates = [m.group(1) for m in re.finditer(r"^\s*use (\w+)::.*\b%s\b" % re.escape(wname), src_text, re.M)]
+                        if re.search(r"\b(?:self|crate|super)::(?:\w+::)*%s\b" % re.escape(wname), src_text) \
+                                and all(f["crate"].replace("-", "_") < uc for uc in use_crates):
+                            # `self::T` (or `super::m::T`) next to `use other::T;` records a second import of T, from the current crate;
+                            # find_type keeps the one whose crate name is smallest (deterministic since the C06 fix "resolve a type name
+                            # imported from several crates the same way in every run"; Lean: reconcile_keeps_smallest).  When that is the
+                            # current crate nothing is imported: a name imported from two crates is outside the scope of the completeness
+                            # claim (C14.inScope).  When the other crate is the smaller one the import is expected like any other.
+                            check.count("out of scope: qualified self/crate/super path next to a use, current crate name smaller")
+                            continue
+                        # completeness is claimed only for plain / grouped `use` of un-renamed types
+                        kid = {"as": "use-as-ignored"}.get(st)
+                        if kid is None and item_renamed(files, oc, wname):
+                            kid = "renamed-type-not-imported"
+                        if kid and check.known(kid, {"lang": lang, "file": f["rel"], "type": wname, "style": st}):
+                            continue
+                        problem = "%s uses %s (defined in crate %s, written to %s; referenced by `%s`) without importing it; its import lines: %s" % (
+                            file_name(lang, f["crate"]), wname, oc, file_name(lang, oc), st,
+                            [l for l in text.split("\n") if l.startswith("import ") and "kotlinx" not in l] or "none")
+    if not problem and single is not None and r1["rc"] == 0:
+        ds = re.findall(DEF_RX[lang], single, re.M)
+        ds = [next(x for x in (d if isinstance(d, tuple) else (d,)) if x) for d in ds]
+        # the program's own types (under their original or serde-renamed names, helper types included):
+        # the same ones must be defined in both modes (back-end helper aliases such as Scala's UByte aside)
+        own_words = {w for f in files for w in f["owned"]} | {"Renamed", "OtherName", "New"}
+        mine = lambda defs: sorted(d for d in defs if any(w in d for w in own_words))
+        if mine(ds) != mine(defs_multi):
+            problem = "multi-file mode defines %s, single-file mode %s" % (mine(defs_multi), mine(ds))
+        # helper definitions that single-file mode appends (Swift's CodableVoid) must exist somewhere in the folder too
+        if not problem and lang == "swift":
+            one = "public struct CodableVoid" in single
+            many = any("public struct CodableVoid" in t for t in outs.values())
+            used = any(re.search(r"\bCodableVoid\b", t) for fn, t in outs.items() if fn != "Codable.swift")
+            if one != many or (used and not many):
+                problem = ("single-file mode %s `CodableVoid`, the folder %s it (files: %s)%s"
+                           % ("defines" if one else "does not define", "defines" if many else "does not define", sorted(outs),
+                              "; a module refers to it" if used else ""))
+    if problem:
+        check.violation("%s%s -d: %s" % (label, lang, problem),
+                        case={"lang": lang, "root": root, "files": {f["rel"]: render_file(f["file"]) for f in files},
+                              "command": "typeshare --lang %s -d out %s %s" % (lang, " ".join(lang_args(lang)), root)},
+                        impl=outs, failing_input=True)
+        return True
+    # the tie: pipeline + back-end model on the same workspace
+    jobs = [{"crate": f["crate"].replace("-", "_"), "file_name": file_name(lang, f["crate"]), "path": root + "/" + f["rel"], "file": f["file"]} for f in files]
+    cfg = {"package": "proto" if lang == "go" else "com.example", "version_header": True, "type_mappings": {}}
+    names = set().union(*[l2.names_of(f["file"]) for f in files])
+    mreq, _, _ = l2.requests(lang, cfg, jobs, g, multi_file=True)
+    ma = model([mreq], names=names if lang == "python" else None)[0]
+    if draw_names:
+        check.count("%smodel %s" % (label, "run on the same workspace" if "ok" in ma else "gives no text: %s" % json.dumps(l2.norm(ma))[:80]))
+    if "ok" in ma:
+        mtexts = {k: v for k, v in ma["ok"].items()}
+        itexts = {f["crate"].replace("-", "_"): outs[file_name(lang, f["crate"])] for f in files}
+        if "Codable.swift" in outs:
+            itexts["<post>/Codable.swift"] = outs["Codable.swift"]
+        if mtexts != itexts:
+            k = next((k for k in set(mtexts) | set(itexts) if mtexts.get(k) != itexts.get(k)))
+            check.violation("the binary's %s output for module %s differs from the model's: %s" % (
+                lang, k, l2.text_diff(mtexts.get(k, ""), itexts.get(k, ""))),
+                case={"lang": lang, "files": {f["rel"]: render_file(f["file"]) for f in files}},
+                impl=itexts, model=mtexts, failing_input=False,
+                broken="correspondence L3 multi-file pipeline (theorems TsV.C14.*)")
+            return True
+    if len(check.samples) < 3 and ncr >= 2:
+        check.sample({"lang": lang, "sources": [f["rel"] for f in files], "files_written": sorted(outs)})
+    return False
+
 def run(check):
     rng = check.rng
     nws = 240 if check.thorough else 42
@@ -197,7 +478,9 @@ def run(check):
                   "or not at all, some types serde-renamed; the real binary with -d for all six languages: set of files written, "
                   "definitions per file vs the crate that owns them, same definitions as single-file mode, import statements (TS, "
                   "Kotlin) sound and - outside the known classes - complete; generated text byte-exact against the pipeline + "
-                  "back-end models; non-trivial = at least two crates and one cross-crate reference")
+                  "back-end models; non-trivial = at least two crates and one cross-crate reference; the same with crate directories and "
+                  "type names beyond ASCII (upper-case, lower-case and caseless first letters by Rust's char::is_uppercase / "
+                  "is_lowercase, non-ASCII inner letters), every reference style")
     # the first workspaces are one per (import-writing language, reference style): three or four crates, every cross-crate
     # reference written in that style
     forced = [(L, st) for st in FORCED for L in ("typescript", "kotlin")] * 2      # twice: a workspace may fail to generate (unsupported types)
@@ -208,152 +491,23 @@ def run(check):
         else:
             lang, force = LANGS[w % 6], None
             ncr = rng.randint(1, 5)
-        CONST_CRATE[0] = lang in ("typescript", "go", "python") and w % 3 == 0
-        crates, files, g = make_workspace(rng, ncr, force)
-        if CONST_CRATE[0]:
-            check.count("workspace-with-const-only-crate")
-        # the workspace itself may be checked out below a directory called `src` (~/src/project/…)
-        root = rng.choice(["ws", "ws", "src/ws", "code/src/proj"])
-        with Scratch() as sc:
-            for f in files:
-                sc.write(root + "/" + f["rel"], render_file(f["file"]))
-            if "src" not in root.split("/"):
-                sc.write(root + "/not_a_crate/readme.rs", "#[typeshare]\npub struct Orphan { pub a: u8 }\n")   # no `src` above: belongs to no crate
-            r = run_cli(["--lang", lang, "-d", sc.path("out")] + lang_args(lang) + [sc.path(root)], cwd=sc.dir)
-            r1 = run_cli(["--lang", lang, "-o", sc.path("single." + EXT[lang])] + lang_args(lang) + [sc.path(root)], cwd=sc.dir)
-            outs = {}
-            if os.path.isdir(sc.path("out")):
-                for fn in sorted(os.listdir(sc.path("out"))):
-                    outs[fn] = open(os.path.join(sc.path("out"), fn), encoding="utf-8").read()
-            single = open(sc.path("single." + EXT[lang]), encoding="utf-8").read() if os.path.exists(sc.path("single." + EXT[lang])) else None
-        cross = sum(len(f["ext"]) for f in files)
-        check.saw((lang, json.dumps([f["rel"] for f in files]), w), nontrivial=ncr >= 2 and cross > 0)
-        check.count("%s crates=%d" % (lang, ncr))
-        check.count("layout root=%s nested=%d" % (root, sum(1 for f in files if f["rel"].startswith("outer"))))
-        if r["rc"] != 0:
-            # generation-time errors (e.g. OffsetDateTime in Kotlin/Swift/Scala, generics in Go) are not C14's business
-            check.count("generation-error")
-            continue
-        problem = None
-        expected_files = {file_name(lang, f["crate"]) for f in files}
-        got_files = {fn for fn in outs if fn != "Codable.swift"}
-        if got_files != expected_files:
-            problem = "files written %s, expected one per crate: %s" % (sorted(got_files), sorted(expected_files))
-        defs_multi = []
-        if not problem:
-            for f in files:
-                text = outs[file_name(lang, f["crate"])]
-                defs = [m for m in re.findall(DEF_RX[lang], text, re.M)]
-                defs = [next(x for x in (d if isinstance(d, tuple) else (d,)) if x) for d in defs]
-                defs_multi += defs
-                # every definition of this file belongs to an item of this crate (original or renamed name, helper `…Inner`)
-                own = set(f["owned"])
-                foreign = [oc for oc in files if oc is not f]
-                for d in defs:
-                    if any(d == o for of in foreign for o in of["owned"]) and d not in own:
-                        problem = "%s defines %s, which belongs to another crate" % (file_name(lang, f["crate"]), d)
-                # imports (TS / Kotlin): sound, and complete outside the known classes
-                if lang in ("typescript", "kotlin") and not problem:
-                    if lang == "typescript":
-                        imps = [(m.group(2), [x.strip() for x in m.group(1).split(",")]) for m in re.finditer(r'^import \{ (.*) \} from "\./(\w+)";', text, re.M)]
-                    else:
-                        imps = {}
-                        for m in re.finditer(r"^import com\.example\.(\w+)\.(\w+)", text, re.M):
-                            imps.setdefault(m.group(1), []).append(m.group(2))
-                        imps = list(imps.items())
-                    for mod, names in imps:
-                        src = [of for of in files if of["crate"].replace("-", "_") == mod]
-                        if not src or mod == f["crate"].replace("-", "_"):
-                            problem = "import from %r, which is not another generated module" % mod
-                            continue
-                        other_text = outs[file_name(lang, src[0]["crate"])]
-                        if lang == "kotlin":
-                            pk = re.search(r"^package (\S+)$", other_text, re.M)
-                            if pk and pk.group(1) != "com.example." + mod:
-                                problem = "import from package com.example.%s, but the module of that crate declares `package %s`" % (mod, pk.group(1))
-                        for n in names:
-                            if not re.search(r"\b%s\b" % re.escape(n), other_text):
-                                problem = "import of %s from %s, which does not define it" % (n, mod)
-                    imported = {n for _, names in imps for n in names}
-                    for oc, wname in f["ext"]:
-                        used = re.search(r"[:<\[( |]%s\b" % re.escape(wname), text) is not None
-                        if used and wname not in imported:
-                            st = f["style"][wname]
-                            if st == "none":
-                                continue      # a reference without any `use` or qualification names no crate: out of scope
-                            src_text = render_file(f["file"])
-                            use_crates = [m.group(1) for m in re.finditer(r"^\s*use (\w+)::.*\b%s\b" % re.escape(wname), src_text, re.M)]
-                            if re.search(r"\b(?:self|crate|super)::(?:\w+::)*%s\b" % re.escape(wname), src_text) \
-                                    and all(f["crate"].replace("-", "_") < uc for uc in use_crates):
-                                # `self::T` (or `super::m::T`) next to `use other::T;` records a second import of T, from the current crate;
-                                # find_type keeps the one whose crate name is smallest (deterministic since the C06 fix "resolve a type name
-                                # imported from several crates the same way in every run"; Lean: reconcile_keeps_smallest).  When that is the
-                                # current crate nothing is imported: a name imported from two crates is outside the scope of the completeness
-                                # claim (C14.inScope).  When the other crate is the smaller one the import is expected like any other.
-                                check.count("out of scope: qualified self/crate/super path next to a use, current crate name smaller")
-                                continue
-                            # completeness is claimed only for plain / grouped `use` of un-renamed types
-                            kid = {"as": "use-as-ignored"}.get(st)
-                            if kid is None and item_renamed(files, oc, wname):
-                                kid = "renamed-type-not-imported"
-                            if kid and check.known(kid, {"lang": lang, "file": f["rel"], "type": wname, "style": st}):
-                                continue
-                            problem = "%s uses %s (defined in crate %s, referenced by `%s`) without importing it" % (
-                                file_name(lang, f["crate"]), wname, oc, st)
-        if not problem and single is not None and r1["rc"] == 0:
-            ds = re.findall(DEF_RX[lang], single, re.M)
-            ds = [next(x for x in (d if isinstance(d, tuple) else (d,)) if x) for d in ds]
-            # the program's own types (under their original or serde-renamed names, helper types included):
-            # the same ones must be defined in both modes (back-end helper aliases such as Scala's UByte aside)
-            own_words = {w for f in files for w in f["owned"]} | {"Renamed", "OtherName", "New"}
-            mine = lambda defs: sorted(d for d in defs if any(w in d for w in own_words))
-            if mine(ds) != mine(defs_multi):
-                problem = "multi-file mode defines %s, single-file mode %s" % (mine(defs_multi), mine(ds))
-            # helper definitions that single-file mode appends (Swift's CodableVoid) must exist somewhere in the folder too
-            if not problem and lang == "swift":
-                one = "public struct CodableVoid" in single
-                many = any("public struct CodableVoid" in t for t in outs.values())
-                used = any(re.search(r"\bCodableVoid\b", t) for fn, t in outs.items() if fn != "Codable.swift")
-                if one != many or (used and not many):
-                    problem = ("single-file mode %s `CodableVoid`, the folder %s it (files: %s)%s"
-                               % ("defines" if one else "does not define", "defines" if many else "does not define", sorted(outs),
-                                  "; a module refers to it" if used else ""))
-        if problem:
-            check.violation("%s -d: %s" % (lang, problem),
-                            case={"lang": lang, "files": {f["rel"]: render_file(f["file"]) for f in files}},
-                            impl=outs, failing_input=True)
+        if workspace_case(check, w, lang, force, ncr):
             return
-        # the tie: pipeline + back-end model on the same workspace
-        jobs = [{"crate": f["crate"].replace("-", "_"), "file_name": file_name(lang, f["crate"]), "path": root + "/" + f["rel"], "file": f["file"]} for f in files]
-        cfg = {"package": "proto" if lang == "go" else "com.example", "version_header": True, "type_mappings": {}}
-        names = set().union(*[l2.names_of(f["file"]) for f in files])
-        mreq, _, _ = l2.requests(lang, cfg, jobs, g, multi_file=True)
-        ma = model([mreq], names=names if lang == "python" else None)[0]
-        if "ok" in ma:
-            mtexts = {k: v for k, v in ma["ok"].items()}
-            itexts = {f["crate"].replace("-", "_"): outs[file_name(lang, f["crate"])] for f in files}
-            if "Codable.swift" in outs:
-                itexts["<post>/Codable.swift"] = outs["Codable.swift"]
-            if mtexts != itexts:
-                k = next((k for k in set(mtexts) | set(itexts) if mtexts.get(k) != itexts.get(k)))
-                check.violation("the binary's %s output for module %s differs from the model's: %s" % (
-                    lang, k, l2.text_diff(mtexts.get(k, ""), itexts.get(k, ""))),
-                    case={"lang": lang, "files": {f["rel"]: render_file(f["file"]) for f in files}},
-                    impl=itexts, model=mtexts, failing_input=False,
-                    broken="correspondence L3 multi-file pipeline (theorems TsV.C14.*)")
-                return
-        if len(check.samples) < 3 and ncr >= 2:
-            check.sample({"lang": lang, "sources": [f["rel"] for f in files], "files_written": sorted(outs)})
+    if unicode_names_part(check):
+        return
     witnesses(check)
     crate_paths(check)
     replay_file_collision(check)
     check.assumptions += ["path components are taken as the OS gives them (no symlink resolution modelled)",
-                          "completeness of the import clause is claimed only for plain / grouped `use` of un-renamed types (see the open findings)"]
+                          "completeness of the import clause is claimed only for plain / grouped `use` of un-renamed types (see the open findings)",
+                          "a reference is a type name with an upper-case first letter under a crate name with a lower-case first letter (Unicode "
+                          "case, as accept_type / accept_crate and the Lean statement have it): types and crates whose first letter has no case "
+                          "(CJK, title-case ǅ) or the other case get no import and are counted, not demanded"]
 
 
 def crate_paths(check):
     """L0: CrateName::find_crate_name against Files.findCrateName and the rule itself, on every path of up to 5 (6) components
-    over {src, a-b, c_d, x, lib.rs}, relative and absolute"""
+    over {src, a-b, c_d, x, lib.rs}, relative and absolute, and of up to 4 (5) components over {src, é-ω, Ärger_x, 型-a, lib.rs}"""
     import itertools
     alphabet = ["src", "a-b", "c_d", "x", "lib.rs"]
     maxlen = 6 if check.thorough else 5
@@ -362,6 +516,12 @@ def crate_paths(check):
         for comps in itertools.product(alphabet, repeat=n):
             paths.append(list(comps))
     paths += [["/"] + p for p in paths if len(p) <= 4]
+    # directory names beyond ASCII (lower-case, upper-case and caseless first letters, dashes inside): every path of up to 4 (5) components
+    for n in range(1, maxlen):
+        for comps in itertools.product(["src", "é-ω", "Ärger_x", "型-a", "lib.rs"], repeat=n):
+            if any(ord(ch) > 127 for c in comps for ch in c):
+                paths.append(list(comps))
+                check.count("crate paths with non-ASCII components")
     mreq = [[S("crate-name"), [c for c in p], S(LANGS[i % 6])] for i, p in enumerate(paths)]
     rreq = [{"op": "crate_name", "path": ("/" + "/".join(p[1:])) if p[0] == "/" else "/".join(p)} for p in paths]
     ms, rs = model(mreq, with_unicode=False), runner(rreq)
